@@ -553,6 +553,11 @@ def normalize(e):
 
 def _while_counters(blk):
     st = list(blk['stmts'])
+    tail = False
+    if 'expr' in blk and peel(blk['expr']).get('k') == 'While':
+        # a loop in tail position is a statement of type ()
+        st.append({'k': 'Expr', 'e': blk['expr']})
+        tail = True
     changed = False
     i = 0
     while i < len(st):
@@ -561,10 +566,13 @@ def _while_counters(blk):
         if x is not None and x.get('k') == 'While':
             cond, body = peel(x['ch'][0]), x['ch'][1]
             cnt = bound = None
-            if cond.get('k') == 'Binary' and cond['op'] == 'Lt':
+            incl = False
+            if cond.get('k') == 'Binary' and cond['op'] in ('Lt', 'Le'):
                 cnt, bound = peel(cond['ch'][0]), cond['ch'][1]
-            elif cond.get('k') == 'Binary' and cond['op'] == 'Gt':
+                incl = cond['op'] == 'Le'
+            elif cond.get('k') == 'Binary' and cond['op'] in ('Gt', 'Ge'):
                 cnt, bound = peel(cond['ch'][1]), cond['ch'][0]
+                incl = cond['op'] == 'Ge'
             if cnt is not None and cnt.get('k') == 'Path' and cnt.get('res') == 'local' and \
                     body.get('k') == 'Block' and body.get('stmts') and 'expr' not in body:
                 lid = cnt['local']
@@ -584,7 +592,8 @@ def _while_counters(blk):
                 has_cont = any(y.get('k') == 'Continue' for z in rest for y in walk(z.get('e') or z.get('init') or {}))
                 used_after = any(y.get('k') == 'Path' and y.get('local') == lid
                                  for z in st[i + 1:] for y in walk(z.get('e') or z.get('init') or {})) or \
-                    ('expr' in blk and any(y.get('k') == 'Path' and y.get('local') == lid for y in walk(blk['expr'])))
+                    ('expr' in blk and not tail and
+                     any(y.get('k') == 'Path' and y.get('local') == lid for y in walk(blk['expr'])))
                 between = any(y.get('k') == 'Path' and y.get('local') == lid
                               for z in st[decl[-1] + 1:i] for y in walk(z.get('e') or z.get('init') or {})) if decl else True
                 if inc and decl and lid not in assigned and not (bound_locals & assigned) and \
@@ -592,7 +601,7 @@ def _while_counters(blk):
                     d = decl[-1]
                     pat = dict(st[d]['pat'])
                     pat['mut'] = False
-                    rng = {'k': 'Range', 'incl': False, 'ch': [st[d]['init'], bound], 'sp': x.get('sp'),
+                    rng = {'k': 'Range', 'incl': incl, 'ch': [st[d]['init'], bound], 'sp': x.get('sp'),
                            'id': None, 'ty': 'std::ops::Range<usize>'}
                     nb = dict(body)
                     nb['stmts'] = rest
@@ -606,6 +615,9 @@ def _while_counters(blk):
     if not changed:
         return blk
     out = dict(blk)
+    if tail:
+        last = st.pop()
+        out['expr'] = last['e']
     out['stmts'] = st
     return out
 
